@@ -5,6 +5,10 @@ package main
 import (
 	"bytes"
 	"fmt"
+	"io/fs"
+	"os"
+	"path/filepath"
+	"sort"
 	"go/ast"
 	"go/printer"
 	"go/token"
@@ -377,6 +381,42 @@ func extractC17() *lean {
 	l.def("vcJwtSignatureErrConds", "List String", leanStrList(vj), vj)
 	vjCalls := c17Calls(funcDecl(svF, "jwtSignature"))
 	l.def("vcJwtSignatureCalls", "List String", leanStrList(vjCalls), vjCalls)
+	vl := c17ErrConds(funcDecl(svF, "jsonldProof"))
+	l.def("vcJsonLdErrConds", "List String", leanStrList(vl), vl)
+	vlCalls := c17Calls(funcDecl(svF, "jsonldProof"))
+	l.def("vcJsonLdCalls", "List String", leanStrList(vlCalls), vlCalls)
+	// ---- process-global allow-list and verifier wiring: who calls AddSupportedAlgorithm / installs the DAG signature verifier
+	callers := map[string][]string{"AddSupportedAlgorithm(": nil, "NewTransactionSignatureVerifier(": nil}
+	_ = filepath.WalkDir(repo, func(path string, d fs.DirEntry, err error) error {
+		if err != nil {
+			return nil
+		}
+		if d.IsDir() {
+			if n := d.Name(); n == ".git" || n == "vendor" || n == "docs" || n == "e2e-tests" {
+				return filepath.SkipDir
+			}
+			return nil
+		}
+		if !strings.HasSuffix(path, ".go") || strings.HasSuffix(path, "_test.go") || strings.Contains(path, "zz_verif") {
+			return nil
+		}
+		b, err := os.ReadFile(path)
+		if err != nil {
+			return nil
+		}
+		rel, _ := filepath.Rel(repo, path)
+		for k := range callers {
+			if bytes.Contains(b, []byte(k)) && !bytes.Contains(b, []byte("func "+k)) {
+				callers[k] = append(callers[k], rel)
+			}
+		}
+		return nil
+	})
+	for _, k := range []string{"AddSupportedAlgorithm(", "NewTransactionSignatureVerifier("} {
+		sort.Strings(callers[k])
+	}
+	l.def("addSupportedAlgorithmCallers", "List String", leanStrList(callers["AddSupportedAlgorithm("]), callers["AddSupportedAlgorithm("])
+	l.def("dagSignatureVerifierInstalledIn", "List String", leanStrList(callers["NewTransactionSignatureVerifier("]), callers["NewTransactionSignatureVerifier("])
 	_, azF := parseFile("auth/services/oauth/authz_server.go")
 	vi := c17ErrConds(funcDecl(azF, "validateIssuer"))
 	l.def("validateIssuerErrConds", "List String", leanStrList(vi), vi)
